@@ -63,6 +63,8 @@ type FnRun struct {
 	inInit        bool
 	snaps         map[string]*State
 	constCells    map[string]Term
+	frameAllowed  map[string]*frameAllow
+	frameAll      bool
 	globalsChecked map[string]bool
 	frameN        int
 }
